@@ -98,6 +98,18 @@ PROPS = {
              "checks": {"quick": 1600, "thorough": 60000}, "shards": {"quick": 4, "thorough": 6}},
         ],
     },
+    "C04": {
+        "level": "exploration", "sim": True,
+        "technique": "property-based testing (rapid): generated owner-reference/label/deletion-state combinations, stale parent views and a second parent's sync interposed at request granularity; oracle = owner-reference diff of every accepted write + decision table recomputed from the cache snapshot",
+        "level_text": "adopt/release decisions are judged per accepted write against the cache snapshot the sync read and the live pre-state; the live-parent recheck is verified from the request log; the one-controller-reference guarantee is judged with the real apimachinery validator inside the simulator",
+        "rule": ("rapid-generated cases: selector forms (matchLabels, matchExpressions, generated) x seeded owner-reference lists (none, ours, another controller's, extra non-controller owners) x deletion states x "
+                 "environment steps (live parent deleting / replaced while cached alive, children and ControllerRevisions orphaned) x per-resource cache lag x nested sync of a second parent with the same selector before a chosen request x "
+                 "label-contract variants (desired child violating the selector, empty selector); non-trivial = an adopt/release decision was taken on a parent whose cached and live view disagree, a two-parent race ran, or the label contract was exercised"),
+        "jobs": [
+            {"name": "c04-composite", "pkg": COMPOSITE, "tests": ["TestVerifC04Composite"],
+             "checks": {"quick": 4000, "thorough": 200000}, "shards": {"quick": 8, "thorough": 12}},
+        ],
+    },
     "C08": {
         "level": "exploration", "sim": True,
         "technique": "property-based testing (rapid): generated rollouts under a fair environment; oracle = bounded-liveness (completion within 3n+6 syncs, Updated=True, one revision left) and an independent health predicate for every RolloutWaiting",
